@@ -130,6 +130,30 @@ func codecArgs(k uint64) []string {
 	return []string{"--codec", n}
 }
 
+func flagOn(flags VL, i int) bool { return i < len(flags) && vnum(flags[i]) != 0 }
+
+// verbose listing: "<codec>: <cid>" lines, everything indented belongs to the block above
+func parseVerboseList(out []byte) Val {
+	l := VL{}
+	for _, ln := range strings.Split(string(out), "\n") {
+		if ln == "" || strings.HasPrefix(ln, "\t") {
+			continue
+		}
+		i := strings.LastIndex(ln, ": ")
+		if i < 0 {
+			l = append(l, VT("unparsable"))
+			continue
+		}
+		c, err := cid.Decode(strings.TrimSpace(ln[i+2:]))
+		if err != nil {
+			l = append(l, VT("unparsable"))
+			continue
+		}
+		l = append(l, VB(c.Bytes()))
+	}
+	return l
+}
+
 func isVB(v Val) bool { _, ok := v.(VB); return ok }
 func isVL(v Val) bool { _, ok := v.(VL); return ok }
 
@@ -300,7 +324,13 @@ func runCliImpl(c *Ctx, cmd string, flags VL, files VL) Val {
 		r := carRun(c, dir, "detach-index", names[0], "out.idx")
 		return VL{VT(r.status), fileVal(filepath.Join(dir, "out.idx"))}
 	case "detachlist":
-		r := carRun(c, dir, "detach-index", "list", names[0])
+		var r cliRes
+		if flagOn(flags, 0) {
+			r = carRunIn(c, dir, []byte(files[0].(VB)), "detach-index", "list")
+			c.Count("stdin-pipe:detachlist")
+		} else {
+			r = carRun(c, dir, "detach-index", "list", names[0])
+		}
 		es := VL{}
 		for _, ln := range strings.Split(string(r.stdout), "\n") {
 			p := strings.Fields(ln)
@@ -325,15 +355,92 @@ func runCliImpl(c *Ctx, cmd string, flags VL, files VL) Val {
 			}
 		}
 		return VL{VT(r.status), data}
-	case "list":
-		r := carRun(c, dir, "list", names[0])
+	case "list": // flags (stdin verbose)
+		args := []string{"list"}
+		if flagOn(flags, 1) {
+			args = append(args, "--verbose")
+		}
+		var r cliRes
+		if flagOn(flags, 0) {
+			r = carRunIn(c, dir, []byte(files[0].(VB)), args...) // a pipe on standard input, no file argument
+			c.Count("stdin-pipe:list")
+		} else {
+			r = carRun(c, dir, append(args, names[0])...)
+		}
+		if flagOn(flags, 1) {
+			return VL{VT(r.status), parseVerboseList(r.stdout)}
+		}
 		return VL{VT(r.status), parseCidLines(r.stdout)}
+	case "listunixfs": // flags (blocks (rootvalue ...) (rootview ...))
+		st := &dagStore{sb: &sandbox{real: "/nonexistent-sandbox"}}
+		var roots []cid.Cid
+		for _, rv := range flags[1].(VL) {
+			roots = append(roots, st.build(rv))
+		}
+		if st.collision() {
+			return VL{VT("collision"), VL{}}
+		}
+		os.WriteFile(filepath.Join(dir, "u.car"), refPayload(roots, st.blks), 0o644)
+		args := []string{"list", "--unixfs"}
+		if flagOn(flags, 0) {
+			args = []string{"list", "--unixfs-blocks"}
+		}
+		r := carRun(c, dir, append(args, "u.car")...)
+		ls := VL{}
+		for _, ln := range strings.Split(string(r.stdout), "\n") {
+			if ln == "" {
+				continue
+			}
+			if flagOn(flags, 0) { // "<cid> <path>"
+				if i := strings.Index(ln, " "); i >= 0 {
+					ln = ln[i+1:]
+				}
+			}
+			ls = append(ls, VB([]byte(ln)))
+		}
+		return VL{VT(r.status), ls}
+	case "debugcompile":
+		var r1 cliRes
+		if flagOn(flags, 0) { // the archive through a pipe on standard input
+			r1 = carRunIn(c, dir, []byte(files[0].(VB)), "debug", "-o", "p.patch")
+			c.Count("stdin-pipe:debug")
+		} else {
+			r1 = carRun(c, dir, "debug", "-o", "p.patch", names[0])
+		}
+		if r1.status != "ok" {
+			return VL{VT(r1.status)}
+		}
+		r2 := carRun(c, dir, "compile", "-o", "out.car", "p.patch")
+		if r2.status != "ok" {
+			return VL{VT(r2.status)}
+		}
+		out, _ := os.ReadFile(filepath.Join(dir, "out.car"))
+		br, err := carv2.NewBlockReader(bytes.NewReader(out))
+		if err != nil {
+			return VL{VT("ok"), VT("unreadable")}
+		}
+		var bl []Blk
+		for {
+			b, err := br.Next()
+			if err != nil {
+				break
+			}
+			bl = append(bl, Blk{b.Cid(), b.RawData()})
+		}
+		sort.Slice(bl, func(i, j int) bool { return bytes.Compare(bl[i].Cid.Bytes(), bl[j].Cid.Bytes()) < 0 })
+		return VL{VT("ok"), cidsVal(br.Roots), blksVal(bl), VN(uint64(len(out))), postVal(c, dir, "out.car", true)}
 	case "listfile":
 		r := carRun(c, dir, "list", names[0], "out.txt")
 		b, _ := os.ReadFile(filepath.Join(dir, "out.txt"))
 		return VL{VT(r.status), parseCidLines(b)}
 	case "root":
-		r := carRun(c, dir, "root", names[0])
+		var r cliRes
+		if flagOn(flags, 0) {
+			r = carRunIn(c, dir, []byte(files[0].(VB)), "root")
+			c.Count("stdin-pipe:root")
+		} else {
+			r = carRun(c, dir, "root", names[0])
+		}
 		l := parseCidLines(r.stdout)
 		if r.status != "ok" {
 			l = VL{}
@@ -368,8 +475,13 @@ func runCliImpl(c *Ctx, cmd string, flags VL, files VL) Val {
 		if vnum(flags[0]) != 0 {
 			args = append(args, "--full")
 		}
-		args = append(args, names[0])
-		r := carRun(c, dir, args...)
+		var r cliRes
+		if flagOn(flags, 1) {
+			r = carRunIn(c, dir, []byte(files[0].(VB)), args...)
+			c.Count("stdin-pipe:inspect")
+		} else {
+			r = carRun(c, dir, append(args, names[0])...)
+		}
 		if r.status != "ok" {
 			return VL{VT(r.status), VL{}}
 		}
@@ -400,7 +512,9 @@ type Arch struct {
 	storeID  bool   // the embedded index also lists identity CIDs (and the header says fully indexed)
 }
 
-func (a Arch) desc() Val { return VL{cidsVal(a.roots), blksVal(a.blks), vbool(a.nilRoots)} }
+func (a Arch) desc() Val {
+	return VL{cidsVal(a.roots), blksVal(a.blks), vbool(a.nilRoots), VN(uint64(a.ver))}
+}
 
 // buildV2 lays a CARv2 out by hand around a payload: pragma, header, padding, payload, padding, index
 // generated by the library from the payload.
